@@ -56,9 +56,10 @@ Definition guard_add_child (s : state) (c : ocls) (n : name) (q : id) : Prop :=
   is_module c = false /\ reg s q /\ can_contain_imports (ocl (store s q)) = true /\
   (forall pq prev, fullpath s q = Some pq -> rget (pq ++ [n]) (allobj s) = Some prev -> covered s prev).
 
-(* a module under a new name, or a module that loses against an existing package of that name.  Excluded:
-   the replacement of a top-level module (C02_dup_root_refuted) and -- not proved, only checked by the
-   correspondence stream -- the replacement of a module inside a package. *)
+(* a module under a new name; a module that loses against an existing package of that name ("packages win":
+   nothing changes); or, INSIDE A PACKAGE, a module that replaces the registered module of that name ("the last
+   wins"): the old one must still be in unprocessed_modules (it has not been replaced before) and nothing
+   superseded may lie below it.  Excluded: the replacement of a TOP-LEVEL module (C02_dup_root_refuted). *)
 Definition guard_add_module (s : state) (pkg : bool) (n : name) (parent : option id) : Prop :=
   match parent with
   | None =>
@@ -67,7 +68,10 @@ Definition guard_add_module (s : state) (pkg : bool) (n : name) (parent : option
   | Some q =>
     reg s q /\ ocl (store s q) = CPackage /\
     (forall pq first, fullpath s q = Some pq -> rget (pq ++ [n]) (allobj s) = Some first ->
-                      ocl (store s first) = CPackage /\ pkg = false)
+                      (ocl (store s first) = CPackage /\ pkg = false) \/
+                      (is_module (ocl (store s first)) = true /\
+                       ocls_eqb (ocl (store s first)) CPackage && negb pkg = false /\
+                       In first (unproc s) /\ covered s first))
   end.
 
 Definition guard_reparent (s : state) (o np : id) (nn : name) : Prop :=
